@@ -1767,6 +1767,7 @@ func (ev *Ev) compositeLit(x *ast.CompositeLit, addr bool) Value {
 		walkValue(v, "", func(path string, l Value) {
 			u.writeField(ev.st, t, path, l.S, ref, l.T)
 		})
+		u.zeroWaitGroups(ev.st, t, ref)
 		u.checkTypeInvAlloc(ev, t, ref)
 		return scalar(ref, SRef, types.NewPointer(t))
 	}
